@@ -1,7 +1,7 @@
 """C04 - cancellation reaches every descendant context and nothing else; one winner.  (DESIGN.md section 4, C04)"""
 from engine.facts import AnalysisBroken, atomic_op, atomic_ops, has_acquire, has_release, is_full_fence
 from engine.rules import (calls, calls_named, atomics_on, every_path_passes, last_member, oname, is_call_to, Defs,
-                          resolve_cond_source, edges_where, dominated_by_edges, lockset, member_accesses, root_of)
+                          resolve_cond_source, edges_where, dominated_by_edges, lockset, member_accesses, root_of, Summaries)
 from rules.common import TBB_SRC
 
 UNITS = ['src/tbb/task_group_context.cpp', 'src/tbb/threading_control.cpp', 'src/tbb/main.cpp', 'src/tbb/governor.cpp',
@@ -284,6 +284,42 @@ def d4_binding(facts, rep):
         rep.ob('D4', 'K4', fn, 'the global epoch is compared after the registration (full fence)',
                bool(gload) and all(every_path_passes(fn, 'entry', lambda p, e: p in set(r[0] for r in regs), end=gp)[0] for gp, _ in gload),
                'epoch re-check before the context is visible to propagators')
+        # K2 (store-buffering pair with cancel_group_execution): the canceller raises the parent's flag by a seq_cst RMW and then reads
+        # my_may_have_children; when it reads "no children" it skips the propagation and never advances an epoch.  The binder therefore
+        # needs a full fence between ITS store of my_may_have_children and EVERY later read of the parent's flag - the speculative
+        # read included, because nothing invalidates it when the canceller skipped.  (A path on which the hint is not stored needs
+        # nothing: the hint was already visible.)
+        summ = Summaries(facts, max_depth=6)
+
+        def fence_here(f, pos, e):
+            if not isinstance(e, int):
+                return False
+            if is_full_fence(atomic_op(f, e)):
+                return True
+            nd = f.nodes[e]
+            return nd.get('k') == 'ctor' and LOCKCLS(nd.get('cls') or '')     # lock acquisition (see ASSUMPTIONS)
+
+        def fence_elem(pos, e):
+            return summ.elem_must(fn, pos, e, 'fullfence+lock', fence_here)
+        hint_stores = [(p, o) for p, o in mhc if o['kind'] in ('store', 'rmw', 'cas')]
+        parent_loads = flag_ops(fn, kinds=('load',))
+        if not hint_stores or not parent_loads:
+            raise AnalysisBroken('bind_to_impl: store of my_may_have_children or load of the parent state not found')
+        for lp, lo in parent_loads:
+            bad = []
+            for hp, ho in hint_stores:
+                if is_full_fence(ho):
+                    continue
+                if not fn.can_reach(hp, lp):
+                    continue
+                ok_f, wit = every_path_passes(fn, hp, fence_elem, end=lp)
+                if not ok_f:
+                    bad.append(wit)
+            rep.ob('D4', 'K2', fn, 'a full fence separates the store of the parent\'s children hint from the read of the parent\'s state at line %s'
+                   % lo['ln'], not bad,
+                   'store-buffering race with cancel_group_execution (flag.exchange(1); if (!may_have_children) return): the binder can read '
+                   'the old state while the canceller reads the old hint and skips the propagation; no epoch changes, the stale copy is kept and '
+                   'the new child of a cancelled context stays uncancelled (%s)' % '; '.join(bad), ln=lo['ln'], key_extra='sb|%s' % lo['ln'])
         nspec = 0
         for sp, so in stores:
             after_reg, _ = every_path_passes(fn, 'entry', lambda p, e: p in set(r[0] for r in regs), end=sp)
